@@ -1,4 +1,5 @@
 import MM.Lemmas.C32
+import MM.Gen.LockC32
 
 /-!
   C32 — one live connection per peer; stale teardown never harms the live one.
@@ -117,6 +118,45 @@ theorem C32_stale_teardown_harmless (s : S) (c : Nat) (l : Label)
     split
     · exact key _ rfl rfl (by simp [S.setConn])
     · exact ⟨fun e hem _ _ _ => hem, fun p c' hpc _ => hpc⟩
+
+
+/-! ### Atomic-step tie (facts regenerated from internal/peer/manager.go by tools/lockshape.go)
+
+  The LTS treats `connect` (duplicate check + map insert of registerConnection), the
+  compare-and-delete of handleDisconnect and the lookup-and-delete of Disconnect as single atomic
+  steps.  That is a fact about the source: each of them is ONE region under the write lock that
+  contains both the read and the write of `peers`, and none of them consults the map through a
+  separately (read-)locked accessor. -/
+
+namespace LockTie
+open MM.Gen.LockC32
+
+def acq (m : String) : Option Nat := (acquisitions.find? (fun a => a.1 == m)).map (·.2)
+def has (m : String) (w : Bool) : Bool := accesses.contains (m, "peers", w, "W")
+def allW (m : String) : Bool := accesses.all (fun a => a.1 != m || a.2.2.2 == "W")
+/-- accessors of `peers` that take the lock themselves -/
+def lockedReaders : List String := ["GetPeer", "GetAllPeers", "PeerCount", "GetPeerIDs", "SendToPeer", "Broadcast"]
+def noReaderCall (m : String) : Bool := calls.all (fun c => c.1 != m || !lockedReaders.contains c.2.1)
+
+/-- registerConnection: check and insert in one write-locked region. -/
+theorem C32_lock_register_atomic :
+    acq "Manager.registerConnection" = some 1 ∧ has "Manager.registerConnection" false = true ∧
+    has "Manager.registerConnection" true = true ∧ allW "Manager.registerConnection" = true ∧
+    noReaderCall "Manager.registerConnection" = true := by decide
+
+/-- handleDisconnect: compare and delete in one write-locked region. -/
+theorem C32_lock_teardown_atomic :
+    acq "Manager.handleDisconnect" = some 1 ∧ has "Manager.handleDisconnect" false = true ∧
+    has "Manager.handleDisconnect" true = true ∧ allW "Manager.handleDisconnect" = true ∧
+    noReaderCall "Manager.handleDisconnect" = true := by decide
+
+/-- Disconnect / DisconnectAll: lookup and removal in one write-locked region. -/
+theorem C32_lock_disconnect_atomic :
+    acq "Manager.Disconnect" = some 1 ∧ allW "Manager.Disconnect" = true ∧ has "Manager.Disconnect" true = true ∧
+    acq "Manager.DisconnectAll" = some 1 ∧ allW "Manager.DisconnectAll" = true ∧
+    has "Manager.DisconnectAll" true = true := by decide
+
+end LockTie
 
 /-! ### Non-vacuity -/
 
